@@ -237,6 +237,136 @@ REF["GeneratorExp"] = [
 EXPECTED_ORDER = ["Constant", "List", "Tuple", "Name", "Attribute", "BoolOp", "BinOp", "UnaryOp", "Compare", "Call",
                   "comprehension", "GeneratorExp"]
 
+# TypeMatcher / TypeMatcherInstance: method -> accepted shapes
+TM_REF = {
+    "TypeMatcher.__getattr__": [("ok", """
+if attr in WHITELIST_TREE:
+    return TypeMatcherInstance(self._rec, [attr])
+
+return NONE_OBJECT
+""")],
+    "TypeMatcherInstance.__init__": [("ok", """
+self._rec = rec
+self._ftypeparts = ftypeparts or []
+self._attrs = attrs or []
+
+self._ftype = None
+self._ftypetree = WHITELIST_TREE
+for p in ftypeparts:
+    self._ftypetree = self._ftypetree[p]
+
+if self._ftypetree is True:
+    self._ftype = ".".join(ftypeparts)
+""")],
+    "TypeMatcherInstance.__getattr__": [("ok", """
+if not self._ftype:
+    if attr not in self._ftypetree:
+        return NONE_OBJECT
+
+    ftypeparts = self._ftypeparts + [attr]
+    return TypeMatcherInstance(self._rec, ftypeparts)
+elif not attr.startswith("_"):
+    attrs = self._attrs + [attr]
+    return TypeMatcherInstance(self._rec, self._ftypeparts, attrs)
+
+return NONE_OBJECT
+""")],
+    "TypeMatcherInstance.__iter__": [("ok", "return self._fields()")],
+    "TypeMatcherInstance._fields": [("ok", """
+for f in self._rec._desc.getfields(self._ftype):
+    yield f.name
+""")],
+    "TypeMatcherInstance._values": [("ok", """
+for f in self._fields():
+    obj = getattr(self._rec, f, NONE_OBJECT)
+    for a in self._attrs:
+        obj = getattr(obj, a, NONE_OBJECT)
+
+    if obj is NONE_OBJECT:
+        continue
+
+    yield obj
+""")],
+    "TypeMatcherInstance._subrecords": [("ok", """
+fields = self._rec._desc.getfields("record")
+for f in fields:
+    r = getattr(self._rec, f.name)
+    if r is not None:
+        yield r
+
+fields = self._rec._desc.getfields("record[]")
+for f in fields:
+    records = getattr(self._rec, f.name)
+    if records is not None:
+        for r in records:
+            yield r
+""")],
+    "TypeMatcherInstance._op": [
+        ("keeps_attrs", """
+for v in self._values():
+    if op(v, other):
+        return True
+
+subrecords = self._subrecords()
+for record in subrecords:
+    type_matcher = TypeMatcherInstance(record, self._ftypeparts, self._attrs)
+    if type_matcher._op(op, other):
+        return True
+
+return False
+"""),
+        ("drops_attrs", """
+for v in self._values():
+    if op(v, other):
+        return True
+
+subrecords = self._subrecords()
+for record in subrecords:
+    type_matcher = TypeMatcherInstance(record, self._ftypeparts)
+    if type_matcher._op(op, other):
+        return True
+
+return False
+"""),
+    ],
+}
+for _dunder, _opn in (("__eq__", "eq"), ("__ne__", "ne"), ("__lt__", "lt"), ("__gt__", "gt"), ("__le__", "le"),
+                      ("__ge__", "ge"), ("__contains__", "contains")):
+    TM_REF["TypeMatcherInstance." + _dunder] = [("ok", "return self._op(operator.%s, other)" % _opn)]
+
+
+def typematcher_shapes(sel):
+    tree = ast.parse(Path(sel.__file__).read_text())
+    classes = {n.name: n for n in tree.body if isinstance(n, ast.ClassDef)}
+    out = {}
+    for key, refs in TM_REF.items():
+        cname, mname = key.split(".")
+        cls = classes.get(cname)
+        if cls is None:
+            raise Unsupported("class %s not found" % cname)
+        meth = next((n for n in cls.body if isinstance(n, ast.FunctionDef) and n.name == mname), None)
+        if meth is None:
+            raise Unsupported("%s not found" % key)
+        # parameters are renamed positionally so that the body is compared modulo their names
+        nf = normal_form_with_args(meth)
+        hit = [tag for tag, src in refs if _ref_with_args(src, [a.arg for a in meth.args.args], meth) == nf]
+        if not hit:
+            raise Unsupported("%s (line %d) has a shape the model does not transcribe" % (key, meth.lineno))
+        out[key] = hit[0]
+    return out
+
+
+def normal_form_with_args(fn) -> str:
+    import copy
+    return normal_form([copy.deepcopy(fn)])
+
+
+def _ref_with_args(src, argnames, meth):
+    # same signature (names and defaults) as the method, reference body
+    text = "def %s(%s):\n" % (meth.name, ast.unparse(meth.args)) + textwrap.indent(textwrap.dedent(src).strip("\n"), "    ")
+    return normal_form([ast.parse(text).body[0]])
+
+
 IS_ALLOWED_REF = """
 if isinstance(func, DynamicFieldtypeModule):
     return func.path in WHITELIST
@@ -413,6 +543,12 @@ def gen_selsem():
     out += "(* the remaining branches have exactly the shape transcribed in model/SelSem.v *)\n"
     out += "Definition boolop_eager_bool_fold : bool := true.\nDefinition boolop_swallows_nonetype_typeerror : bool := true.\n"
     out += "Definition binop_sentinel_guard : bool := true.\nDefinition call_allowed_by_identity : bool := true.\n\n"
+    tms = typematcher_shapes(sel)
+    out += "(* TypeMatcherInstance._op: the matcher built for a nested record gets the attribute path (self._attrs) too *)\n"
+    out += "Definition typematcher_recursion_keeps_attrs : bool := %s.\n" % cbool(tms["TypeMatcherInstance._op"] == "keeps_attrs")
+    out += "(* TypeMatcher.__getattr__, TypeMatcherInstance.__init__/__getattr__/__iter__/_fields/_values/_subrecords and the\n"
+    out += "   comparison dunders have exactly the shape transcribed in model/SelSem.v *)\n"
+    out += "Definition typematcher_shapes_ok : bool := true.\n\n"
     out += "(* self.data as `matches` builds it: name, kind of value *)\n"
     out += "Definition data_names : list (string * string) := %s.\n\n" % clist([cpair(cstr(n), cstr(k)) for n, k in data_names(sel)])
     out += "Definition function_whitelist_names : list string := %s.\n" % clist([cstr(f.__name__) for f in sel.FUNCTION_WHITELIST])
